@@ -240,7 +240,8 @@ Cont(o, r) ==
         ELSE {Goto(o, "nodesubnets")}
    [] IsFilter(o) /\ o.pc = "nodesubnets" -> {FilterAfterAvail(o, Range(r.subnets), FALSE)}
    [] IsFilter(o) /\ o.pc = "allocwithkey" -> IF r.ok THEN {Goto(o, "first")} ELSE {Finish(o, FALSE)}
-   [] IsFilter(o) /\ o.pc = "first" -> {FinishNodes(o, {L.rs})}
+   \* (only preempt, which holds no pod lock, can find the IP it has just taken gone again: it then fails)
+   [] IsFilter(o) /\ o.pc = "first" -> IF r.ip = "none" THEN {Finish(o, FALSE)} ELSE {FinishNodes(o, {L.rs})}
    [] IsFilter(o) /\ o.pc = "allocinsubnet" -> IF r.ok THEN {FinishNodes(o, {L.rs})} ELSE {Finish(o, FALSE)}
     (* ======== bind ======== *)
    [] o.type = "bind" /\ o.pc = "lockpod" -> {Goto(o, IF "bindLockFirst" \in Guards THEN "podlist" ELSE "bykey")}
